@@ -74,10 +74,14 @@ def _run_one(i):
     try:
         import signal
 
+        # VERIF_BUDGET_SCALE shortens / lengthens every obligation budget (used when evaluating seeded changes whose symbolic runs explode;
+        # an exceeded budget is UNDECIDED, never a verdict)
+        budget = max(10, int(ob.timeout * float(os.environ.get("VERIF_BUDGET_SCALE", "1"))))
+
         def _alarm(sig, frm):
-            raise TimeoutError("obligation budget %ds exceeded" % ob.timeout)
+            raise TimeoutError("obligation budget %ds exceeded" % budget)
         signal.signal(signal.SIGALRM, _alarm)
-        signal.alarm(int(ob.timeout))
+        signal.alarm(budget)
         r = ob.fn()
         signal.alarm(0)
         out["status"] = "discharged"
